@@ -26,6 +26,9 @@ pub(crate) struct SystemEventAccessTracker
 
 impl SystemEventAccessTracker
 {
+    #[cfg(ukoehb_bevy_cobweb_verif)]
+    pub(crate) fn verif_state(&self) -> (usize, bool) { (self.prepared.len(), self.currently_reacting) }
+
     /// Caches metadata for a system event.
     pub(crate) fn prepare(&mut self, system: SystemCommand, data_entity: Entity)
     {
